@@ -22,7 +22,7 @@ from . import core
 from .core import Case, cD
 from . import pylite_tie
 
-obligations = pylite_tie.utils_obligations   # source-regenerated tie (see harness/pylite_tie.py)
+obligations = pylite_tie.c11_obligations   # source-regenerated tie (see harness/pylite_tie.py)
 
 ID = "C11"
 PROPS_FILE = "Props/C11.v"
